@@ -113,6 +113,29 @@ def run (lk : Bool) (who : Nat → Caller) (creatable : Nat → Bool) (s : St) :
   | [] => s
   | i :: is => run lk who creatable (step lk who creatable s i) is
 
+/-! ### every public way to obtain the device
+
+`protocol.data[name]`, `protocol.get_nowait(name)` and the attribute `protocol.<name>` read the entry at the moment of the
+call; a callback subscribed to the name (`subscribe`, `subscribe_once`) is called with every announced object;
+`await protocol.get(name)` — and `await protocol.wait_for(name)` followed by one of the reads — return to the caller; a
+frame consumer returns from `get_device_entry` with the object it then hands its frame to. -/
+
+inductive Route
+  | data                -- protocol.data[name]
+  | getNowait           -- protocol.get_nowait(name)
+  | attr                -- protocol.<name>
+  | subscribed          -- a callback subscribed to the name was called with the object
+  | returned (j : Nat)  -- caller j (user get() / wait_for() + read, or frame consumer) returned with the object
+deriving Repr, DecidableEq
+
+/-- through route `ρ` the client sees object `d` as the device of address `a`, in state `s` -/
+def sees (who : Nat → Caller) (s : St) (a : Nat) : Route → Nat → Bool
+  | .data, d => s.published a == some d
+  | .getNowait, d => s.published a == some d
+  | .attr, d => s.published a == some d
+  | .subscribed, d => s.dispatched.contains (a, d)
+  | .returned j, d => (who j).addr == a && (s.pc j == .done d || s.pc j == .got d)
+
 /-! ### reconnects
 
 The link may drop and come back (`connection_lost` → `connection_established`, as
